@@ -63,6 +63,7 @@ func boundaryCases(r *lib.RNG) []*caseT {
 			}
 		}
 	}
+	out = append(out, twinFunctionCases()...)
 	// nested imports: main -> m0 -> m1 -> … , every import the first token of its file, the innermost fails at offset 0
 	for depth := 1; depth <= 3; depth++ {
 		for _, k := range bKinds {
@@ -177,4 +178,55 @@ func buildChain(r *lib.RNG, depth int, k bKind) *caseT {
 	c.CallOffs = append(c.CallOffs, 0)
 	c.Shape = fmt.Sprintf("boundary chain%d all-at-offset0", depth)
 	return c
+}
+
+// twinFunctionCases: two (or three) function literals with byte-identical code — no constants in the body, so the
+// bytes do not depend on constant indexes — in one file or in main and a module; the failure happens in a LATER
+// copy. Each copy has its own source positions: the Script path de-duplicates constants after compiling, and
+// merging functions by their code (seeded change C14-m7) reports the failure at the first copy.
+func twinFunctionCases() []*caseT {
+	var out []*caseT
+	bodies := []struct{ body, failing, expect, okArgs, badArgs string }{
+		{"return a + b", "return a + b", "invalid operation: int + string", "1, 2", "1, \"s\""},
+		{"return a - b", "return a - b", "invalid operation: string - int", "3, 2", "\"s\", 1"},
+		{"c := a\n  return b(c)", "return b(c)", "not callable: int", "1, string", "1, 2"},
+		{"if a { return b[a] }\n  return a", "return b[a]", "invalid index type", "false, 2", "true, [1]"},
+	}
+	for _, b := range bodies {
+		for _, copies := range []int{2, 3} {
+			for _, inModule := range []bool{false, true} {
+				c := &caseT{Modules: map[string]string{}, Kind: "twin-functions", Expect: b.expect}
+				var main strings.Builder
+				lit := "func(a, b) {\n  " + b.body + "\n}"
+				// the earlier copies live in main and are called with harmless arguments
+				for i := 0; i < copies-1; i++ {
+					fmt.Fprintf(&main, "f%d := %s\nr%d := f%d(%s)\n", i, lit, i, i, b.okArgs)
+				}
+				callee := fmt.Sprintf("f%d", copies-1)
+				if inModule {
+					modSrc := "f := " + lit + "\nexport f\n"
+					c.Modules["tw"] = modSrc
+					lo := strings.Index(modSrc, b.failing)
+					c.Fail, c.FailOff = span{"tw", lo, lo + len(b.failing)}, lo
+					main.WriteString("tw := import(\"tw\")\n")
+					callee = "tw"
+				} else {
+					lo0 := main.Len()
+					def := fmt.Sprintf("%s := %s\n", callee, lit)
+					main.WriteString(def)
+					lo := lo0 + strings.Index(def, b.failing)
+					c.Fail, c.FailOff = span{mainName, lo, lo + len(b.failing)}, lo
+				}
+				lo := main.Len()
+				call := fmt.Sprintf("z := %s(%s)", callee, b.badArgs)
+				main.WriteString(call + "\n")
+				c.Calls = []span{{mainName, lo, lo + len(call)}}
+				c.CallOffs = []int{lo + len("z := ")}
+				c.Main = main.String()
+				c.Shape = fmt.Sprintf("twin-functions copies%d module=%v", copies, inModule)
+				out = append(out, c)
+			}
+		}
+	}
+	return out
 }
